@@ -374,6 +374,12 @@ class PairWorld:
         self.se, self.ce = d.connect(sf), d.connect(cf)
         self.pipe = wsutil.Pipe(d, self.ce, self.se)
         self.pipe.run()
+        if kind == "rs":
+            # the limit that counts is the one each side *announced* in its handshake octets (second octet, high nibble: 2^(9+n)), whatever was configured
+            hs_c, hs_s = bytes(self.pipe.delivered[0][:4]), bytes(self.pipe.delivered[1][:4])
+            if len(hs_c) == 4 and len(hs_s) == 4 and hs_c[0] == 0x7F and hs_s[0] == 0x7F:
+                self.client_max = 2 ** (9 + (hs_c[1] >> 4))
+                self.server_max = 2 ** (9 + (hs_s[1] >> 4))
 
     def transports(self):
         c = [x[1] for x in self.clog if x[0] == "open"]
@@ -412,7 +418,7 @@ def traffic(col, seed, n):
     names = sorted(S)
     anymsg = st.sampled_from(names).flatmap(lambda nm: S[nm])
     strat = st.fixed_dictionaries({
-        "kind": st.sampled_from(["rs", "ws"]), "ser": st.sampled_from(SERS), "limit": st.sampled_from([512, 1024, 4096, 65536, 2 ** 17]),
+        "kind": st.sampled_from(["rs", "ws"]), "ser": st.sampled_from(SERS), "limit": st.sampled_from([512, 1024, 4096, 65536, 2 ** 17, 1000, 3000, 5000, 100000]),
         "deltas": st.lists(st.sampled_from([-1, 0, 1, -100, 37]), min_size=1, max_size=4), "dir": st.sampled_from(["c2s", "s2c"]),
         "msgs": st.lists(anymsg, max_size=4), "schedule": st.lists(st.tuples(st.integers(0, 1), st.one_of(st.none(), st.integers(1, 300))), max_size=12),
         "header_only_excess": st.sampled_from([1, 100, 2 ** 20]), "burst": st.sampled_from([0, 0, 3, 6])})   # burst: that many reads per event-loop turn
